@@ -145,7 +145,7 @@ def main(tier):
     rect_sets = fam['scenes']
     poly_sets = fam['pscenes']
     for mode, sets in ((1, rect_sets), (0, poly_sets)):
-        chosen = rnd.sample(sets, min(len(sets), 150 if quick else 6000))
+        chosen = rnd.sample(sets, min(len(sets), 400 if quick else 6000))
         for st in chosen:
             shapes = [RC.rect_poly(r) for r in st] if mode == 1 else st
             free = [p for p in pts if not any(RC.in_closed_convex(p, poly) for poly in shapes)]
@@ -177,10 +177,10 @@ def main(tier):
         scenes.append({'mode': md, 'P': 10 if md else rnd.choice([0, 10]), 'buf': 0, 'opts': rnd.randint(0, 31) & ~1, 'shapes': shapes, 'conns': conns})
     # a row A | B | C of butted rectangles: corners of the outer two lie in the interior of opposite sides of the middle one
     # (vertices on another shape's edge on both sides of one shape), every insertion order, both orientations
-    for _ in range(150 if quick else 3000):
+    for _ in range(400 if quick else 3000):
         scenes.append(butted_row(rnd))
     nenum = len(scenes)
-    for _ in range(300 if quick else 8000):
+    for _ in range(1000 if quick else 8000):
         scenes.append(random_scene(rnd, rnd.randint(0, 1)))
     out = RC.run_scenes(hr, d, 'valid', scenes)
     recs = make_records(out)
